@@ -100,6 +100,19 @@ def gate_ref(gd, N, lib_gate=None):
 
 def gate_lib(gd, be='np'):
     """library gate object from a gate dict."""
+    g = _gate_lib(gd, be)
+    if gd.get('reject') is not None:
+        bad = ['XY', 5, None][gd['reject'] % 3]
+        for setter in ('set_generator', 'set_forward_map', 'set_backward_map'):
+            try:
+                getattr(g, setter)(bad)
+            except Exception:
+                continue
+            raise Mismatch('%s(%r) was accepted by a gate' % (setter, bad), 'bad-definition-accepted')
+    return g
+
+
+def _gate_lib(gd, be='np'):
     Bk = B.backend(be)
     cm = Bk.mods()['c']
     kind = gd['kind']
